@@ -36,6 +36,9 @@ pub struct Case {
   pub rows: usize,
   pub cols: usize,
   pub stmts: Vec<Stmt>,
+  /// enumerated wrong-length-mask stratum: the acceptance table of the pinned tree applies strictly (learned from exactly these cases)
+  #[serde(default)]
+  pub strict: bool,
 }
 
 fn opsym(op: Option<Op>) -> &'static str {
@@ -118,7 +121,7 @@ impl Prop for C04 {
             other => other,
           }
         }).collect();
-        Case { ek, rows, cols, stmts }
+        Case { ek, rows, cols, stmts, strict: false }
       })
     }).boxed()
   }
@@ -142,6 +145,7 @@ impl Prop for C04 {
     for s in &c.stmts { let (pre, st) = render_stmt(s, c.rows, c.cols, 0); out.extend(pre); out.push(st); }
     out.join("; ")
   }
+  fn fixed_cases(_t: Tier) -> Vec<Case> { masklen_stratum() }
   fn check(c: &Case, _cx: &Cx) -> Verdict { check(c) }
 }
 
@@ -239,6 +243,16 @@ fn check(c: &Case) -> Verdict {
         keys.push(format!("{}|invalid:{}|{}", fkey, why, out.class()));
         if out.is_ok() {
           let why2 = if why == "out-of-range" && mask_len_bad(s, c.rows, c.cols) { "mask-length-unchecked" } else { why };
+          if why2 == "mask-length-unchecked" && c.strict {
+            // the listed finding is tied to the places where the pinned tree accepts a mask of the wrong length; in the enumerated stratum an
+            // acceptance outside that table is a length check that was lost
+            let mkey = format!("{}|{}|{}|{}|{}", storage, cls, forms, opname, mask_rel(s, c.rows, c.cols));
+            v.label(format!("masklen-accepted:{}", mkey));
+            if !(masklen_baseline().contains(&mkey) || std::env::var("VERIF_LEARN").is_ok()) {
+              v.fail(format!("C04|mask-length-newly-accepted|{}", mkey), format!("`{}` on a {}x{} {} matrix: a mask of the wrong length is rejected here on the pinned tree but succeeded; x = {}", text, c.rows, c.cols, kind, now.show()));
+              return v;
+            }
+          }
           v.fail(format!("C04|{}invalid-accepted|{}|{}|{}|{}", cz, why2, cls, forms, opname), format!("`{}` on a {}x{} {} matrix should be an error but succeeded; x = {}", text, c.rows, c.cols, kind, now.show()));
           return v;
         }
@@ -359,6 +373,40 @@ fn resync(now: &RVal, model: &Opnd) -> Option<Opnd> {
     }
     _ => None,
   }
+}
+
+fn mask_rel(s: &Stmt, rows: usize, cols: usize) -> String {
+  let rel = |tag: &str, ix: &Ix, len: usize| match ix { Ix::Mask { flags, .. } if flags.len() < len => format!("{}<", tag), Ix::Mask { flags, .. } if flags.len() > len => format!("{}>", tag), _ => String::new() };
+  match s { Stmt::Indexed { i, j: None, .. } => rel("i", i, rows * cols), Stmt::Indexed { i, j: Some(j), .. } => format!("{}{}", rel("i", i, rows), rel("j", j, cols)), _ => String::new() }
+}
+
+fn masklen_baseline() -> &'static std::collections::HashSet<String> {
+  static S: std::sync::OnceLock<std::collections::HashSet<String>> = std::sync::OnceLock::new();
+  S.get_or_init(|| {
+    let p = format!("{}/baselines/C04_masklen_accepted.json", verif_dir());
+    std::fs::read_to_string(p).ok().and_then(|t| serde_json::from_str::<Vec<String>>(&t).ok()).map(|v| v.into_iter().collect()).unwrap_or_default()
+  })
+}
+
+/// Enumerated stratum: one statement per case; every shape class x index-form pair holding a mask whose length is off by -2 .. +2 x flag
+/// patterns x {=, +=, *=} with a scalar source, f64 and u8 elements.
+fn masklen_stratum() -> Vec<Case> {
+  let mut out = vec![];
+  let pats = |n: usize| -> Vec<Vec<bool>> { let mut v = vec![vec![true; n], vec![false; n], (0..n).map(|i| i == 0).collect(), (0..n).map(|i| i == n - 1).collect()]; v.dedup(); v };
+  let bad_masks = |len: usize| -> Vec<Ix> { let mut v = vec![]; for d in [-2i64, -1, 1, 2] { let n = len as i64 + d; if n >= 1 { for f in pats(n as usize) { v.push(Ix::Mask { flags: f.clone(), var: false }); } } } v };
+  let good = |len: usize| -> Vec<Ix> { vec![Ix::Scalar(1, None), Ix::All, Ix::Vec { vals: vec![len as i64, 1], col: false }, Ix::Range { a: 1, b: len as i64, inclusive: true }, Ix::Mask { flags: vec![true; len], var: false }] };
+  for ek in [EK::N(K::F64), EK::N(K::U8)] {
+    let sv = match ek { EK::N(K::U8) => Sc::U(8, 2), _ => f64b(2.0) };
+    for (rows, cols) in [(1usize, 1usize), (1, 3), (3, 1), (2, 3), (3, 2), (2, 2)] {
+      for op in [None, Some(Op::Add), Some(Op::Mul)] {
+        let mk = |i: Ix, j: Option<Ix>| Case { ek, rows, cols, stmts: vec![Stmt::Indexed { i, j, op, src: Src::Scalar(sv.clone()) }], strict: true };
+        for i in bad_masks(rows * cols) { out.push(mk(i, None)); }
+        for i in bad_masks(rows) { for j in good(cols) { out.push(mk(i.clone(), Some(j))); } }
+        for j in bad_masks(cols) { for i in good(rows) { out.push(mk(i, Some(j.clone()))); } }
+      }
+    }
+  }
+  out
 }
 
 fn mask_len_bad(s: &Stmt, rows: usize, cols: usize) -> bool {
